@@ -36,7 +36,7 @@ C05_QUICK = ([_h(f"c05::c05_quantize__{t}") for t in I8_TYPES] + [_h(f"c05::c05_
              + [_h(f"c05::c05_layered2__{t}", bound="check degree 2, |variable LLR| <= 508") for t in I8_TYPES]
              + [_h(f"c05::c05_layered3__{t}", bound="check degree 3, |variable LLR| <= 508") for t in I8_TYPES])
 C05_THOROUGH = ([h for h in C05_QUICK if "var8" not in h["harness"]]
-                + [_h(f"c05::c05_var200__{t}", timeout=3600, mem_gb=9) for t in I8_TYPES])
+                + [_h(f"c05::c05_var32__{t}", timeout=3600, mem_gb=8, bound="degrees 1..=32 (1..=200 did not finish)") for t in I8_TYPES])
 C04_QUICK = ([_h(f"c04::c04_table__{t}") for t in I8_TYPES] + [_h(f"c04::c04_check2__{t}") for t in I8_TYPES]
              + [_h(f"c04::c04_check3__{t}") for t in I8_TYPES])
 FLOAT_TYPES = ["Phif64", "Phif32", "Tanhf64", "Tanhf32", "Minstarapproxf64", "Minstarapproxf32", "Aminstarf64", "Aminstarf32"]
@@ -58,11 +58,18 @@ C01_KANI_QUICK = [_h(f"c01::c01_h1__{n}", timeout=2400, mem_gb=5, bound=_DEC_BOU
 C01_KANI_THOROUGH = ([_h(f"c01::c01_h1__{n}", timeout=3600, mem_gb=5, bound=_DEC_BOUND) for n in MSA_FL + MSA_HL]
                      + [_h(f"c01::c01_h2__{n}", timeout=3600, mem_gb=6, bound=_DEC_BOUND) for n in ["Minstarapproxi8", "HLMinstarapproxi8"]])
 _HIST_BOUND = "BOUNDED: two-call histories on the fixed 2x3 matrix, limits (first, second) as named, all f64 LLRs with |x| <= 1e30"
-C10_SCRATCH = [_h(f"c04f::c10_scratch{l}__{t}", timeout=1800, bound="arithmetic scratch buffers, SURROGATE transcendental functions (under abstraction), degrees 3 then 2, |x| <= 100")
-               for t in FLOAT_TYPES if not t.startswith("Phif") for l in ("", "_layered")]
+_SCR_B = "arithmetic scratch buffers, SURROGATE transcendental functions (under abstraction, not a proof), degree 3 then degree 2, |x| <= 100"
+C10_SCRATCH = [_h(f"c04f::c10_scratch__{t}", timeout=900, bound=_SCR_B) for t in ["Minstarapproxf64", "Minstarapproxf32", "Tanhf64", "Tanhf32"]]
+# calibrated in the thorough tier only (3-25 min); the Phif, Aminstarf64, Tanhf64-layered and Aminstarf32-layered
+# scratch harnesses did not finish in 30 min and are not registered
+C10_SCRATCH_THOROUGH = C10_SCRATCH + [_h(f"c04f::{h}", timeout=3600, bound=_SCR_B) for h in
+                                      ["c10_scratch_layered__Tanhf32", "c10_scratch_layered__Minstarapproxf32",
+                                       "c10_scratch_layered__Minstarapproxf64", "c10_scratch__Aminstarf32"]]
 C10_KANI_QUICK = [_h(f"c01::{h}", timeout=3000, mem_gb=5, bound=_HIST_BOUND) for h in
-                  ["c10_h1_1_0__Minstarapproxi8", "c10_h1_1_1__Minstarapproxi8", "c10_h1_1_1__HLMinstarapproxi8"]] + C10_SCRATCH
-C10_KANI_THOROUGH = C10_SCRATCH + [_h(f"c01::c10_h1_{p}__{n}", timeout=3600, mem_gb=5, bound=_HIST_BOUND) for n in MSA_FL + MSA_HL for p in ["1_0", "1_1"]]
+                  ["c10_h1_1_0__Minstarapproxi8", "c10_h1_1_1__Minstarapproxi8"]] + C10_SCRATCH
+# the layered two-call harnesses need 15-25 min and > 10 GB each: thorough tier only
+C10_KANI_THOROUGH = C10_SCRATCH_THOROUGH + [_h(f"c01::c10_h1_{p}__{n}", timeout=5400, mem_gb=(16 if n.startswith("HL") else 6), cap_gb=40, bound=_HIST_BOUND)
+                                   for n in MSA_FL + MSA_HL for p in ["1_0", "1_1"]]
 _C03_B = "BOUNDED: checker-supplied exact integer min-sum arithmetic, integer LLRs in [-7,7], fixed matrix, limit <= "
 C03_KANI = [_h("c03::c03_flooding_h1_l1", timeout=2400, mem_gb=6, bound=_C03_B + "1 (2x3)"),
             _h("c03::c03_layered_h1", timeout=2400, mem_gb=6, bound=_C03_B + "2 (2x3)"),
